@@ -1,6 +1,8 @@
 #!/bin/sh
 # usage: specs/apalache/run_smoothfn.sh -- the smoothed-min/max algebra of SmoothFn.tla for ALL integers (Apalache + Z3)
 cd "$(dirname "$0")" || exit 2
+# supplementary step: if the tool is not installed, say so and do not fail the (TLC-decided) check
+command -v apalache-mc >/dev/null 2>&1 || { echo "APALACHE-SKIP apalache-mc not on PATH"; exit 0; }
 OUT=/var/tmp/verif-apalache-sf-$$
 ok=0
 mkdir -p $OUT; export TMPDIR=$OUT
